@@ -159,7 +159,7 @@ class Harness:
         """A new context on the same file sees exactly the committed map."""
         self.ops.append(["fresh-scan"])
         self.flags.add("reopen")
-        c2 = env.new_ctx(self.path)
+        c2 = self.guard(env.new_ctx, self.path)   # opening may not raise
         try:
             got = {}
             for p in c2.get_all_pages():
